@@ -293,3 +293,33 @@ def api_verbatim(opname, text):
         stage1.parse_op = orig
     expected = text + " ->" if opname == "solve_axes" else text
     return len(seen) == 0 or seen[0] == expected
+
+
+# A SyntaxError is about the caller's description. Ordinary descriptions must not produce one whatever the tensors'
+# ranks and sizes are (einx prints shapes and sizes into text and parses that text).
+_LONG = [
+    ("id", "... -> ...", lambda: [np.zeros((1,) * 40)], {}),
+    ("id", "a... -> a...", lambda: [np.zeros((1,) * 45)], {}),
+    ("sum", "a [...]", lambda: [np.zeros((2,) + (1,) * 40)], {}),
+    ("id", "a... -> (a...)", lambda: [np.zeros((1,) * 39 + (3,))], {}),
+    ("solve_axes", "a b c d e f g h i j k l m n", lambda: [_Shape(tuple(54321 + i for i in range(14)))], {}),
+    ("solve_shapes", "a...", lambda: [None], {"a": tuple(100000 + i for i in range(16))}),
+    ("matches", "a... b", lambda: [_Shape(tuple(123456 for _ in range(24)))], {}),
+    ("id", "a... -> a...", lambda: [np.zeros((1,) * 20)], {"a": tuple([1] * 20)}),
+]
+
+
+class _Shape:
+    def __init__(self, shape):
+        self.shape = shape
+
+
+def long_shape_ok(i):
+    opname, desc, mk, kw = _LONG[i]
+    try:
+        getattr(einx, opname)(desc, *mk(), **kw)
+    except einx.errors.SyntaxError:
+        return False
+    except Exception:  # noqa: BLE001 - other rejections are not this harness' subject
+        return True
+    return True
